@@ -491,6 +491,32 @@ func (x *run) parseChecks(seed uint64) {
 		{Author: []string{"René Descartes"}, Actor: []string{"abc123"}, Participant: []string{"x y"}, NoLabel: true, OrderBy: "id", Desc: true, SortGiven: true},
 		{Metadata: [][2]string{{"github-url", "https://x/y"}}, Search: []string{"kw1", "two words"}, OrderBy: "creation", Desc: true},
 	}
+	// generated: values of the documented grammar (double quotes delimit a multi-word value; anything
+	// but a double quote may stand inside them: apostrophes, colons, other scripts)
+	vals := []string{"plain", "two words", "don't panic", "O'Brien Jr", "it's: here", "a:b", "日本 語", "l'été 'quoted' twice", "tab\tless", "x"}
+	pick := func() string { return vals[r.Intn(len(vals))] }
+	for i := 0; i < 10; i++ {
+		q := model.Q{OrderBy: []string{"id", "creation", "edit"}[r.Intn(3)], Desc: r.Chance(0.5), SortGiven: true}
+		for k := r.Intn(3); k > 0; k-- {
+			switch r.Intn(7) {
+			case 0:
+				q.Author = append(q.Author, pick())
+			case 1:
+				q.Actor = append(q.Actor, pick())
+			case 2:
+				q.Participant = append(q.Participant, pick())
+			case 3:
+				q.Label = append(q.Label, pick())
+			case 4:
+				q.Title = append(q.Title, pick())
+			case 5:
+				q.Metadata = append(q.Metadata, [2]string{"key", pick()})
+			case 6:
+				q.Search = append(q.Search, pick())
+			}
+		}
+		qs = append(qs, q)
+	}
 	for _, q := range qs {
 		pq, err := query.Parse(q.Render())
 		if err != nil {
